@@ -210,6 +210,65 @@ type Case struct {
 	want       []byte // intended content of the next successful save
 	hasWant    bool
 	contentBad string
+	wantShas   []string
+	unordered  bool // concurrent saves: the order of publication is not known to the harness
+}
+
+// Job is one of several saves started at the same time on the same dst.
+type Job struct {
+	Want []byte
+	F    func() error
+}
+
+// SaveConcurrent runs the jobs in parallel goroutines (released together).
+// The harness cannot know in which order they publish: the reader may see the
+// previous version and the wanted versions in any order, the final content
+// must be one of the wanted versions of the jobs that succeeded, and the
+// model side compares the published versions as a set.
+func (c *Case) SaveConcurrent(label string, jobs []Job) {
+	c.unordered = true
+	errs := make([]error, len(jobs))
+	start := make(chan struct{})
+	var wg sync.WaitGroup
+	for i := range jobs {
+		wg.Add(1)
+		go func(i int) {
+			defer wg.Done()
+			<-start
+			errs[i] = jobs[i].F()
+		}(i)
+	}
+	close(start)
+	wg.Wait()
+	v, cur := snapshotB(c.Dst)
+	okAny, match := false, false
+	for i, j := range jobs {
+		jv := v
+		jv.Label = fmt.Sprintf("%s#%d", label, i)
+		if errs[i] != nil {
+			jv.Err = errs[i].Error()
+		} else {
+			okAny = true
+			h := sha256.Sum256(j.Want)
+			c.wantShas = append(c.wantShas, hex.EncodeToString(h[:]))
+			jv.HasWant, jv.WantLen = true, len(j.Want)
+			if len(j.Want) <= SmallLimit {
+				jv.WantHex = hex.EncodeToString(j.Want)
+			}
+			if v.Exists && bytes.Equal(cur, j.Want) {
+				match = true
+			}
+		}
+		c.versions = append(c.versions, jv)
+	}
+	if c.contentBad == "" {
+		if okAny && !match {
+			c.contentBad = fmt.Sprintf("after the concurrent saves %q %s holds %d bytes that are none of the %d intended versions", label, filepath.Base(c.Dst), len(cur), len(jobs))
+		} else if !okAny && (v.Exists != c.prevExists || !bytes.Equal(cur, c.prev)) {
+			c.contentBad = fmt.Sprintf("all concurrent saves %q failed but %s changed", label, filepath.Base(c.Dst))
+		}
+	}
+	c.prev, c.prevExists = cur, v.Exists
 }
 
 // Want states, independently of the file system, what the next successful
@@ -343,7 +402,28 @@ func (s *Session) Case(name, dst string, keep []string, classes []string, body f
 	s.mark(fmt.Sprintf("end-%d", s.seg))
 
 	// the reader must have seen complete versions only, in order
+	nseen := len(seen)
 	j, bad := 0, ""
+	if c.unordered {
+		// membership only; intended contents count as versions
+		wantSha := map[string]bool{}
+		for _, v := range c.versions {
+			if v.Exists {
+				wantSha[v.Sha] = true
+			}
+		}
+		for _, w := range c.wantShas {
+			wantSha[w] = true
+		}
+		for _, o := range seen {
+			if o.Exists && !wantSha[o.Sha] || !o.Exists && c.versions[0].Exists {
+				bad = fmt.Sprintf("concurrent reader saw a state of %s that is none of the complete versions: exists=%v len=%d sha=%.12s",
+					filepath.Base(dst), o.Exists, o.Len, o.Sha)
+				break
+			}
+		}
+		seen = nil
+	}
 	for _, o := range seen {
 		k := j
 		for k < len(c.versions) && !(c.versions[k].Exists == o.Exists && c.versions[k].Sha == o.Sha) {
@@ -358,7 +438,7 @@ func (s *Session) Case(name, dst string, keep []string, classes []string, body f
 	}
 	rec := map[string]any{
 		"seg": s.seg, "name": name, "dst": dst, "keep": keep, "classes": c.Classes,
-		"versions": c.versions, "initial": initial, "reader_polls": polls, "reader_distinct": len(seen),
+		"versions": c.versions, "initial": initial, "reader_polls": polls, "reader_distinct": nseen, "unordered": c.unordered,
 		"reader_bad": bad, "content_bad": c.contentBad, "info": c.Info, "tmpdir": os.Getenv("TMPDIR"),
 	}
 	b, _ := json.Marshal(rec)
